@@ -172,6 +172,7 @@ func c04Leaves() []c04Leaf {
 		{name: "Gateway.listener.hostname", benign: "ok.example.com", mustReport: true, set: func(c *vsCluster, _ *c04Extras, v string) { c.Gateways[0].Listeners[0].Host = &v }},
 		{name: "HTTPRoute.hostname", benign: "ok.example.com", mustReport: true, set: func(c *vsCluster, _ *c04Extras, v string) { c.Routes[0].Hosts = []string{v} }},
 		{name: "HTTPRoute.match.path", benign: "/ok", mustReport: true, set: func(c *vsCluster, _ *c04Extras, v string) { c.Routes[0].Rules[0].Matches[1].Path = v }},
+		{name: "HTTPRoute.match.path.notLast", benign: "/ok", mustReport: true, set: func(c *vsCluster, _ *c04Extras, v string) { c.Routes[0].Rules[0].Matches[0].Path = v }},
 		{name: "HTTPRoute.match.pathExact", benign: "/ok", mustReport: true, set: func(c *vsCluster, _ *c04Extras, v string) { c.Routes[0].Rules[1].Matches[0].Path = v }},
 		{name: "HTTPRoute.match.method", benign: "GET", mustReport: true, set: func(c *vsCluster, _ *c04Extras, v string) { c.Routes[0].Rules[0].Matches[0].Method = &v }},
 		{name: "HTTPRoute.match.header.name", benign: "X-Ok", mustReport: true, set: func(c *vsCluster, _ *c04Extras, v string) { c.Routes[0].Rules[0].Matches[0].Headers[0][0] = v }},
